@@ -22,7 +22,7 @@ META = dict(
                  'transactions carry distinct payees so that register rows can be matched across variants'],
 )
 
-REG = '%(date)|%(payee)|%(account)|%(verif_rational(amount))|%(amount)\\n'
+REG = '%(date)|%(payee)|%(account)|%(verif_rational(amount))|%(scrub(display_amount))\\n'   # the last field: what the register column shows (computed lot details are not shown without --lots)
 BAL = '%(account)|%(verif_rational(amount))\\n'
 
 
@@ -39,9 +39,25 @@ def gen_base(rng):
             x = X.gen_plain(rng, elide=rng.random() < 0.4)   # commodity-less amounts: displayed at their own precision
         elif rng.random() < 0.3:
             x = X.gen_lot_notes(rng)                        # lots that differ in their note (or date) only
+        elif rng.random() < 0.15:
+            x = X.gen_implied_rate_with_cancel(rng)         # an implied rate beside a commodity that cancels (F65)
         x.date = '2020/%02d/%02d' % (rng.randrange(1, 13), rng.randrange(1, 29))
         x.orig = i
         xs.append(x)
+    # a pair of lots of one commodity bought at the same price on the same lot date, told apart by their notes only
+    if rng.random() < 0.3:
+        a, b = X.gen_lot_notes(rng), X.gen_lot_notes(rng)
+        pa = next(p for p in a.posts if p.lot is not None)
+        pb = next(p for p in b.posts if p.lot is not None)
+        pb.lot, pb.lot_date = pa.lot, pa.lot_date
+        pa.lot_note, pb.lot_note = rng.sample(['lotA', 'lotB', 'ira', 'taxable'], 2)
+        pb.acct = pa.acct
+        cash = next(p for p in b.posts if p.lot is None)
+        cash.amt = X.Amt(-pb.lot.value * pb.amt.value, 2, '$')
+        for x in (a, b):
+            x.date = '2020/%02d/%02d' % (rng.randrange(1, 13), rng.randrange(1, 29))
+            x.orig = len(xs)
+            xs.append(x)
     # display style: some amounts of one commodity are written with thousands marks - the commodity learns the style from
     # any of them, whatever their precision and wherever they stand
     if rng.random() < 0.4:
@@ -233,8 +249,13 @@ def run(ctx, n_override=None):
             if od:
                 res.count('model:order-dependent')
             else:
-                mb = {a: v for a, v in mbal.items() if v}
-                ib = {a: v for a, v in bal.items() if v and a != '__lots__'}
+                # the precision counter of a commoditized entry is not compared: ledger keeps an amount bought at a (computed) cost
+                # in a slot of its own, so the counters of the merged entry depend on which slots are still there; what is
+                # displayed for such an entry is the commodity's precision (C04), not the counter
+                def k_(v):
+                    return [(s_, q_, pr_ if not s_ else None) for (s_, q_, pr_) in v]
+                mb = {a: k_(v) for a, v in mbal.items() if v}
+                ib = {a: k_(v) for a, v in bal.items() if v and a != '__lots__'}
                 if st != 0 or mb != ib or mn != nrows:
                     res.disagreements.append(dict(name='C08/balances', case=main, kind=kind, status=st, counts=(mn, nrows), text='\n'.join(x.text(x.orig) for x in xs),
                                                   diff=str([(a, ib.get(a), mb.get(a)) for a in set(ib) | set(mb) if ib.get(a) != mb.get(a)])[:1500],
